@@ -450,4 +450,124 @@ theorem tracker_rename {F : Type} (fl : Flag F) (c : TCfg) (norm ρ : String →
   have := tracker_rename_from fl c norm ρ hi hk (namesOf as) hρ as [] (fun p hp => by simp at hp) (fun n hn => hn)
   simpa [Machine.run, tracker, renSt] using this
 
+/-! ### hits of names the method does not declare are irrelevant -/
+
+/-- an action that cannot concern a declaration whose key is in `K` -/
+def foreign (norm : String → String) (K : List String) : TAct → Bool
+  | .hit n => !K.contains (norm n)
+  | .other => true
+  | _ => false
+
+def eraseForeign (norm : String → String) (K : List String) (a : TAct) : TAct :=
+  if foreign norm K a then .other else a
+
+/-- two readings of a visit agree, up to hits of names that are not declared (keys outside `K`) -/
+def agreeUpTo (norm : String → String) (K : List String) (a b : TAct) : Bool :=
+  a == b || (foreign norm K a && foreign norm K b)
+
+theorem mapBump_foreign {F : Type} (fl : Flag F) (k : String) (s : List (String × TEntry F)) (h : ∀ p ∈ s, p.1 ≠ k) :
+    mapBump fl k s = s := by
+  unfold mapBump
+  conv => rhs; rw [← List.map_id s]
+  apply List.map_congr_left
+  intro p hp
+  have : (p.1 == k) = false := by simp [h p hp]
+  simp [this]
+
+theorem tracker_erase_from {F : Type} (fl : Flag F) (c : TCfg) (norm : String → String)
+    (hi : c.foldIns = true) (hk : c.foldLook = true) (K : List String) (as : List TAct) :
+    ∀ (s : List (String × TEntry F)), (∀ p ∈ s, p.1 ∈ K) → (∀ d ∈ decls as, norm d.1 ∈ K) →
+      (tracker fl c norm).runFrom s (as.map (eraseForeign norm K)) = (tracker fl c norm).runFrom s as := by
+  induction as with
+  | nil => intro s _ _; rfl
+  | cons a rest ih =>
+    intro s hs hd
+    cases a with
+    | enter =>
+      have hd' : ∀ d ∈ decls rest, norm d.1 ∈ K := by simpa using hd
+      simp only [List.map_cons, eraseForeign, foreign, Bool.false_eq_true, ↓reduceIte, Machine.runFrom, tracker, trackerStep]
+      congr 1
+      cases c.resets
+      · have := ih s hs hd'; simpa [tracker] using this
+      · have := ih [] (by simp) hd'; simpa [tracker] using this
+    | other =>
+      have hd' : ∀ d ∈ decls rest, norm d.1 ∈ K := by simpa using hd
+      simp only [List.map_cons, eraseForeign, foreign, ↓reduceIte, Machine.runFrom, tracker, trackerStep, List.nil_append]
+      have := ih s hs hd'; simpa [tracker] using this
+    | decl n r =>
+      have hn : norm n ∈ K := hd (n, r) (by simp)
+      have hd' : ∀ d ∈ decls rest, norm d.1 ∈ K := fun d h => hd d (by simp [h])
+      simp only [List.map_cons, eraseForeign, foreign, Bool.false_eq_true, ↓reduceIte, Machine.runFrom, tracker, trackerStep,
+        keyOf, hi, hk]
+      cases (c.dupError && (s.lookup (norm n)).isSome)
+      · simp only [Bool.false_eq_true, ↓reduceIte, List.nil_append]
+        have hs' : ∀ p ∈ mapInsert (norm n) (⟨n, r, fl.zero⟩ : TEntry F) s, p.1 ∈ K := by
+          intro p hp
+          rcases mem_mapInsert hp with rfl | h
+          · exact hn
+          · exact hs p h
+        have := ih _ hs' hd'; simpa [tracker] using this
+      · simp only [↓reduceIte]
+        congr 1
+        have := ih s hs hd'; simpa [tracker] using this
+    | hit n =>
+      have hd' : ∀ d ∈ decls rest, norm d.1 ∈ K := by simpa using hd
+      by_cases hf : K.contains (norm n) = true
+      · simp only [List.map_cons, eraseForeign, foreign, hf, Bool.not_true, Bool.false_eq_true, ↓reduceIte, Machine.runFrom,
+          tracker, trackerStep, List.nil_append]
+        have hs' : ∀ p ∈ mapBump fl (keyOf c.foldLook norm n) s, p.1 ∈ K := by
+          intro p hp
+          simp only [mapBump, List.mem_map] at hp
+          obtain ⟨q, hq, rfl⟩ := hp
+          have := hs q hq
+          split <;> exact this
+        have := ih _ hs' hd'; simpa [tracker] using this
+      · have hf' : K.contains (norm n) = false := by simpa using hf
+        simp only [List.map_cons, eraseForeign, foreign, hf', Bool.not_false, ↓reduceIte, Machine.runFrom, tracker, trackerStep,
+          List.nil_append, keyOf, hk]
+        have hne : ∀ p ∈ s, p.1 ≠ norm n := by
+          intro p hp heq
+          have := hs p hp
+          rw [heq] at this
+          simp only [List.contains_eq_mem, decide_eq_false_iff_not] at hf'
+          exact hf' this
+        rw [mapBump_foreign fl _ s hne]
+        have := ih s hs hd'; simpa [tracker] using this
+
+theorem erase_eq_of_agree (norm : String → String) (K : List String) {a b : TAct} (h : agreeUpTo norm K a b = true) :
+    eraseForeign norm K a = eraseForeign norm K b := by
+  simp only [agreeUpTo, Bool.or_eq_true, beq_iff_eq, Bool.and_eq_true] at h
+  rcases h with rfl | ⟨ha, hb⟩
+  · rfl
+  · simp [eraseForeign, ha, hb]
+
+/-- **readings that agree up to foreign hits give the same reports** (one method) -/
+theorem tracker_congr {F : Type} {α : Type} (fl : Flag F) (c : TCfg) (norm : String → String)
+    (hi : c.foldIns = true) (hk : c.foldLook = true) (f g : α → TAct) (evs : List α)
+    (h : ∀ e ∈ evs, agreeUpTo norm ((decls (evs.map g)).map (fun d => norm d.1)) (f e) (g e) = true) :
+    (tracker fl c norm).run (.enter :: evs.map f) = (tracker fl c norm).run (.enter :: evs.map g) := by
+  let K := (decls (evs.map g)).map (fun d => norm d.1)
+  have hg : ∀ d ∈ decls (evs.map g), norm d.1 ∈ K := fun d hd => List.mem_map.2 ⟨d, hd, rfl⟩
+  have hf : ∀ d ∈ decls (evs.map f), norm d.1 ∈ K := by
+    intro d hd
+    simp only [decls, List.mem_filterMap, List.mem_map] at hd
+    obtain ⟨a, ⟨e, he, rfl⟩, ha⟩ := hd
+    have hag := h e he
+    simp only [agreeUpTo, Bool.or_eq_true, beq_iff_eq, Bool.and_eq_true] at hag
+    rcases hag with heq | ⟨hfo, _⟩
+    · apply hg
+      simp only [decls, List.mem_filterMap, List.mem_map]
+      exact ⟨g e, ⟨e, he, rfl⟩, heq ▸ ha⟩
+    · cases hfe : f e <;> simp_all [foreign, declOf]
+  have e1 := tracker_erase_from fl c norm hi hk K (.enter :: evs.map f) [] (by simp) (by simpa using hf)
+  have e2 := tracker_erase_from fl c norm hi hk K (.enter :: evs.map g) [] (by simp) (by simpa using hg)
+  have e3 : (TAct.enter :: evs.map f).map (eraseForeign norm K) = (TAct.enter :: evs.map g).map (eraseForeign norm K) := by
+    simp only [List.map_cons, List.map_map]
+    congr 1
+    apply List.map_congr_left
+    intro e he
+    exact erase_eq_of_agree norm K (h e he)
+  simp only [Machine.run, tracker] at e1 e2 ⊢
+  rw [← e1, ← e2, e3]
+
 end Gold.Lint
